@@ -47,12 +47,16 @@ var barPrograms = []string{"AR", "F", "AFR", "AARR", "FF", "ARAR", "FAR", "ARF",
 type barDriver struct {
 	progs []string
 	held  bool // setup leaves one closed-but-held session (main releases it at the end)
+	fine  bool // plain stores (objectRef, seqno, freeSeqno, counters) are scheduling points too
 }
 
 func (d barDriver) name() string {
 	h := ""
 	if d.held {
 		h = "+held"
+	}
+	if d.fine {
+		h += "+fine"
 	}
 	return strings.Join(d.progs, "|") + h
 }
@@ -78,6 +82,9 @@ func barDrivers(tier string) []barDriver {
 				continue
 			}
 			out = append(out, barDriver{progs: ps})
+			if ops <= 5 {
+				out = append(out, barDriver{progs: ps, fine: true})
+			}
 			if fl <= 2 && ops <= maxOps2-1 {
 				out = append(out, barDriver{progs: ps, held: true})
 			}
@@ -233,9 +240,11 @@ func runBarrier(jc *JobCtx, prop string, d barDriver, bound int) {
 				}
 			}))
 		}
+		vrt.FineMode = d.fine
 		vrt.NoBranch(false)
 		vrt.Join(ths...)
 		vrt.NoBranch(true)
+		vrt.FineMode = false
 		if heldTok != nil {
 			release(heldTok)
 		}
